@@ -437,6 +437,14 @@ class Interp:
             self.write_loc(st, args[0].loc, vals[1])
             self.muts[(bb, 0)] = WriteRec(bb, args[0].loc, vals[1], line, 'replace')
             mutate = False
+        elif d in ('std::mem::swap', 'core::mem::swap') and len(args) == 2 and args[0].loc is not None and args[1].loc is not None:
+            # both places exchange their contents: each is a `replace` by the other's old value
+            result = ('const', '()', '()')
+            self.write_loc(st, args[0].loc, vals[1])
+            self.write_loc(st, args[1].loc, vals[0])
+            self.muts[(bb, 0)] = WriteRec(bb, args[0].loc, vals[1], line, 'replace')
+            self.muts[(bb, 1)] = WriteRec(bb, args[1].loc, vals[0], line, 'replace')
+            mutate = False
         if mutate and info['name'] in ACCESSOR_NAMES and not info['local']:
             mutate = False  # hands out a reference into the container, does not change it
         if info['name'] in ('box_assume_init_into_vec_unsafe', 'into_vec') and len(args) == 1:
